@@ -441,6 +441,11 @@ func (r *Run) frameCheck(fr *Frame, final *State, reach Term, penv *Env, fenv *E
 					get(s.V).all = true
 				}
 			}
+			if id != nil && id.Name == "allmaps" {
+				for _, c := range r.allMapsComps(aenv.pkg, x) {
+					get(c).all = true
+				}
+			}
 			if id != nil && (id.Name == "allelems" || id.Name == "allboxes") {
 				if s, ok := x.Args[0].(*EStr); ok {
 					if t := r.resolveType(aenv.pkg, s.V); t != nil {
@@ -525,7 +530,7 @@ func (r *Run) frameCheck(fr *Frame, final *State, reach Term, penv *Env, fenv *E
 			k := r.ctx.Fresh("frame.k", SInt)
 			var ors []Term
 			if !strings.HasPrefix(c, "ghost.") && !strings.HasPrefix(c, "held.") {
-				ors = append(ors, Gt(k, top0), Le(k, mkInt(0)))
+				ors = append(ors, Gt(k, top0), Eq(k, mkInt(0)))
 			}
 			if al != nil {
 				for _, i := range al.idxs {
